@@ -152,8 +152,11 @@ class C11(Config):
         "(real derived values obtained through the external crates' own to_bytes/from_bytes/address_at, "
         "called independently of zcash_keys); a missing table entry yields a poison value (byte 256) that "
         "can never equal an observed byte string",
-        "harness/keysnt/src/bin/c11nt.rs (second feature profile, built with -p vkeysnt so that cargo does not unify "
-        "`transparent-inputs` in) and the extra() hook of vlib/props/c11.py that merges its cases into the verdict",
+        "harness/keysnt/src/bin/c11nt.rs and harness/keysns/src/bin/c11ns.rs (feature profiles without `transparent-inputs` / "
+        "without `orchard`, each built with its own -p so that cargo does not unify the feature in) and the extra() hook of "
+        "vlib/props/c11.py that merges their cases into the verdict; c11ns reports the no-orchard profile in the main model's "
+        "vocabulary (a kept item with typecode 3 is shown as the Orchard receiver, identity decoder oracle) — that mapping is "
+        "harness code, the cfg(not(orchard)) arm has no separate Gallina transcription",
         "external cryptography treated as oracles: orchard 0.15, sapling-crypto 0.7, bip32, secp256k1, zip32, "
         "bech32 (Bech32m) and f4jumble (the harness inverts both layers with the primitive crates)",
     ]
@@ -180,35 +183,43 @@ class C11(Config):
         "probabilistic (Sapling diversifier validity) and not proved",
     ]
 
+    # further feature profiles of zcash_keys: (binary, package, what it is)
+    profiles = [
+        ("c11nt", "vkeysnt", "profile_without_transparent_inputs"),
+        ("c11ns", "vkeysns", "profile_without_orchard"),
+    ]
+
     def extra(self, ctx):
-        """Second feature profile: zcash_keys WITHOUT `transparent-inputs` (its default). The binary
-        c11nt lives in its own package (harness/keysnt) and is built with `-p vkeysnt`, so cargo's
-        feature unification does not switch the feature on. Its cases go through the same Coq
-        evaluation and verdict as the main ones."""
+        """Further feature profiles: zcash_keys WITHOUT `transparent-inputs` (its default; binary c11nt,
+        package harness/keysnt) and WITHOUT `orchard` (binary c11ns, package harness/keysns). Each
+        binary is built with its own `-p`, so cargo's feature unification does not switch the feature
+        on. Their cases go through the same Coq evaluation and verdict as the main ones."""
         from .. import core
         from ..runner import parse_harness, classify
         if any(p.get("kind") == "model" for p in ctx["problems"]):
             return
-        core.log("[C11] harness (profile without transparent-inputs)")
-        ok, path, out = core.harness_build("c11nt", package="vkeysnt")
-        if not ok:
-            ctx["problems"].append({"kind": "harness", "what": "harness-build (c11nt, package vkeysnt)", "log": out[-6000:]})
-            return
-        rc, out = core.harness_run(path, self.harness_args(ctx["tier"], ctx["seed"]), timeout=self.harness_timeout)
-        cases, stats, other = parse_harness(out)
-        if rc != 0 or not cases:
-            ctx["problems"].append({"kind": "harness", "what": "harness-run (c11nt)", "log": "\n".join(other)[-6000:]})
-            return
-        res = core.eval_cases(self.pid + "-nt", self.header, self.fns, cases, shard_size=self.shard_size)
-        cl = [(c, False) for c in cases]
-        classify(self, res, cl, ctx["problems"], ctx["violations"], ctx["known_hits"])
-        ctx["cases"] += cl
-        if ctx.get("res") is not None:
-            for k, v in res.get("tags", {}).items():
-                ctx["res"]["tags"][k] = ctx["res"]["tags"].get(k, 0) + v
-        ctx["extra_evidence"] = {"profile_without_transparent_inputs": {
-            "binary": "c11nt (package vkeysnt)", "cases": len(cases), "stats": stats[:2],
-            "tag_histogram": {str(k): v for k, v in sorted(res.get("tags", {}).items())}}}
+        ev = {}
+        for binname, pkg, label in self.profiles:
+            core.log("[C11] harness (%s)" % label)
+            ok, path, out = core.harness_build(binname, package=pkg)
+            if not ok:
+                ctx["problems"].append({"kind": "harness", "what": "harness-build (%s, package %s)" % (binname, pkg), "log": out[-6000:]})
+                continue
+            rc, out = core.harness_run(path, self.harness_args(ctx["tier"], ctx["seed"]), timeout=self.harness_timeout)
+            cases, stats, other = parse_harness(out)
+            if rc != 0 or not cases:
+                ctx["problems"].append({"kind": "harness", "what": "harness-run (%s)" % binname, "log": "\n".join(other)[-6000:]})
+                continue
+            res = core.eval_cases(self.pid + "-" + binname, self.header, self.fns, cases, shard_size=self.shard_size)
+            cl = [(c, False) for c in cases]
+            classify(self, res, cl, ctx["problems"], ctx["violations"], ctx["known_hits"])
+            ctx["cases"] += cl
+            if ctx.get("res") is not None:
+                for k, v in res.get("tags", {}).items():
+                    ctx["res"]["tags"][k] = ctx["res"]["tags"].get(k, 0) + v
+            ev[label] = {"binary": "%s (package %s)" % (binname, pkg), "cases": len(cases), "stats": stats[:2],
+                         "tag_histogram": {str(k): v for k, v in sorted(res.get("tags", {}).items())}}
+        ctx["extra_evidence"] = ev
 
     @staticmethod
     def gen():
